@@ -430,3 +430,42 @@ Definition pushed (plus : bool) (k : bkind) (entry : list string * bool) : optio
     | _ => if snd entry then None else Some (fst entry)
     end
   else None.
+
+(* ====================== NGINX as a process: loaded files + API state ====================== *)
+(* What NGINX balances over for an upstream is what the files said at the LAST RELOAD,
+   overwritten by every successful NGINX Plus API call since.  State of one upstream:
+   (servers in the file on disk, servers NGINX uses). *)
+Definition ustate := (list string * list string)%type.
+
+(* Configurator.UpdateEndpoints* for ONE resource of the list: the file is rewritten; with
+   NGINX Plus the API is called (updateServersInPlus does nothing while reloads are disabled,
+   i.e. inside a batch of sync()); result: the new state and whether this resource asks for a
+   reload (API failure) *)
+Definition upd_one (plus reloads_on api_ok : bool) (new : list string) (st : ustate) : ustate * bool :=
+  if plus then
+    if reloads_on then (if api_ok then ((new, new), false) else ((new, snd st), true))
+    else ((new, snd st), false)
+  else ((new, snd st), false).
+
+(* the loop over the resources that use the Service; the reload request is LATCHED (or-ed) *)
+Fixpoint upd_all (plus reloads_on : bool) (xs : list (bool * list string * ustate)) : list ustate * bool :=
+  match xs with
+  | [] => ([], false)
+  | (api_ok, new, st) :: r =>
+      let '(st', need) := upd_one plus reloads_on api_ok new st in
+      let '(sts, need') := upd_all plus reloads_on r in
+      (st' :: sts, need || need')
+  end.
+
+Definition reload_all (sts : list ustate) : list ustate := map (fun st => (fst st, fst st)) sts.
+
+(* UpdateEndpoints / ...ForVirtualServers / ...ForTransportServers: NGINX OSS always reloads, NGINX Plus
+   only after an API failure; cnf.Reload does nothing while reloads are disabled *)
+Definition update_endpoints (plus reloads_on : bool) (xs : list (bool * list string * ustate)) : list ustate :=
+  let '(sts, need) := upd_all plus reloads_on xs in
+  if (negb plus || need) && reloads_on then reload_all sts else sts.
+
+(* the end of a batch of sync(): reloads are enabled again and, when an EndpointSlice task of the
+   batch concerned a resource, NGINX is reloaded *)
+Definition end_of_batch (batch_reload : bool) (sts : list ustate) : list ustate :=
+  if batch_reload then reload_all sts else sts.
